@@ -368,3 +368,5 @@ def run(ctx):
         clause7_attach_all(ctx, P, cg)
         clause8_fetch_identity(ctx, P)
         clause9_refused_fetch_is_gone(ctx, P, cg)
+        from .c02 import clause5b_number_rendering     # 'each with its most recently accepted value': values are rendered exactly
+        clause5b_number_rendering(ctx, P)
